@@ -382,6 +382,59 @@ func runC16(cs core.Case, verbose bool) core.CaseResult {
 	res.Count("discovered_types_total", int64(len(urls)))
 	var uncovered []string
 	var samples []string
+	var pristine *chain.Chain
+	judge := func(c *chain.Chain, base chain.Dump, url string, pl payload, hostile map[string]string) {
+		// positive control
+		setAuthority(pl.msg, chain.GovAuthority())
+		pb := c.Branch()
+		pr := c.MsgOn(pb, pl.msg)
+		if !pr.OK() {
+			res.Count("positive_controls_failed", 1)
+			uncovered = append(uncovered, url+"["+pl.label+"]: "+short(pr.ErrString()))
+			return
+		}
+		res.Count("positive_controls_ok", 1)
+		if len(chain.Diff(base, c.Dump(pb))) == 0 {
+			res.Count("positive_control_without_effect", 1)
+		}
+		res.AddSig(url + "/" + pl.label)
+		labels := make([]string, 0, len(hostile))
+		for label := range hostile {
+			labels = append(labels, label)
+		}
+		sort.Strings(labels)
+		for _, label := range labels {
+			auth := hostile[label]
+			setAuthority(pl.msg, auth)
+			br := c.Branch()
+			r := c.MsgOn(br, pl.msg)
+			res.Count("rejections_checked", 1)
+			if len(samples) < 4 {
+				samples = append(samples, fmt.Sprintf("%s[%s] authority=%s(%q) -> %s", url, pl.label, label, auth, short(r.ErrString())))
+			}
+			if r.Panic != nil {
+				res.Violate("C16/panic/"+url, "%s with authority %s (%q) panicked: %v", url, label, auth, r.Panic)
+				continue
+			}
+			if r.OK() {
+				res.Violate("C16/accepted/"+url+"/"+label, "%s [%s] was accepted with authority %s = %q (governance authority is %s)", url, pl.label, label, auth, chain.GovAuthority())
+				continue
+			}
+			// RunOn discards the branch on error, exactly as baseapp does for a failed tx;
+			// what the handler wrote before failing is what the property is about, so run
+			// the handler once more without the discard wrapper.
+			raw := c.Branch()
+			func() {
+				defer func() { _ = recover() }()
+				if h := c.App.MsgServiceRouter().Handler(pl.msg); h != nil {
+					_, _ = h(raw, pl.msg)
+				}
+			}()
+			if d := chain.Diff(base, c.Dump(raw)); len(d) > 0 {
+				res.Violate("C16/rejected-but-wrote/"+url, "%s [%s] with authority %s was rejected but its handler left %d store changes, e.g. %s", url, pl.label, label, len(d), d[0].String())
+			}
+		}
+	}
 	base := c.Dump(c.Ctx)
 	for i, url := range urls {
 		if i%spec.Of != spec.Shard {
@@ -396,50 +449,24 @@ func runC16(cs core.Case, verbose bool) core.CaseResult {
 		}
 		// x.payloads may have prepared state (deployed a contract, funded the pool)
 		base = c.Dump(c.Ctx)
+		hostile := hostileAuthorities(x, spec.Seed)
 		for _, pl := range pls {
-			// positive control
-			setAuthority(pl.msg, chain.GovAuthority())
-			pb := c.Branch()
-			pr := c.MsgOn(pb, pl.msg)
-			if !pr.OK() {
-				res.Count("positive_controls_failed", 1)
-				uncovered = append(uncovered, url+"["+pl.label+"]: "+short(pr.ErrString()))
-				continue
+			judge(c, base, url, pl, hostile)
+		}
+		// the same messages in a state nothing has prepared: a chain fresh from genesis, on which no bridge has
+		// an oracle list, a token or a parameter change yet
+		if pp := pristinePayloads(url, spec.Seed); pp != nil {
+			if pristine == nil {
+				pristine = chain.New(chain.Config{Seed: spec.Seed, NumVals: 2, NumUsers: 4})
+				if _, err := pristine.Next(); err != nil {
+					res.Inconclusive = "pristine chain: " + err.Error()
+					return res
+				}
 			}
-			res.Count("positive_controls_ok", 1)
-			if len(chain.Diff(base, c.Dump(pb))) == 0 {
-				res.Count("positive_control_without_effect", 1)
-			}
-			res.AddSig(url + "/" + pl.label)
-			for label, auth := range hostileAuthorities(x, spec.Seed) {
-				setAuthority(pl.msg, auth)
-				br := c.Branch()
-				r := c.MsgOn(br, pl.msg)
-				res.Count("rejections_checked", 1)
-				if len(samples) < 4 {
-					samples = append(samples, fmt.Sprintf("%s[%s] authority=%s(%q) -> %s", url, pl.label, label, auth, short(r.ErrString())))
-				}
-				if r.Panic != nil {
-					res.Violate("C16/panic/"+url, "%s with authority %s (%q) panicked: %v", url, label, auth, r.Panic)
-					continue
-				}
-				if r.OK() {
-					res.Violate("C16/accepted/"+url+"/"+label, "%s [%s] was accepted with authority %s = %q (governance authority is %s)", url, pl.label, label, auth, chain.GovAuthority())
-					continue
-				}
-				// RunOn discards the branch on error, exactly as baseapp does for a failed tx;
-				// what the handler wrote before failing is what the property is about, so run
-				// the handler once more without the discard wrapper.
-				raw := c.Branch()
-				func() {
-					defer func() { _ = recover() }()
-					if h := c.App.MsgServiceRouter().Handler(pl.msg); h != nil {
-						_, _ = h(raw, pl.msg)
-					}
-				}()
-				if d := chain.Diff(base, c.Dump(raw)); len(d) > 0 {
-					res.Violate("C16/rejected-but-wrote/"+url, "%s [%s] with authority %s was rejected but its handler left %d store changes, e.g. %s", url, pl.label, label, len(d), d[0].String())
-				}
+			pbase := pristine.Dump(pristine.Ctx)
+			for _, pl := range pp(pristine) {
+				res.Count("pristine_state_payloads", 1)
+				judge(pristine, pbase, url, pl, hostile)
 			}
 		}
 	}
@@ -447,6 +474,31 @@ func runC16(cs core.Case, verbose bool) core.CaseResult {
 	res.Sig = fmt.Sprintf("shard%d", spec.Shard)
 	res.Sample = map[string]interface{}{"spec": spec, "discovered": urls, "uncovered": uncovered, "rejections": samples}
 	return res
+}
+
+// pristinePayloads: messages that are valid on a chain fresh from genesis.
+func pristinePayloads(url string, rngSeed uint64) func(c *chain.Chain) []payload {
+	switch url {
+	case sdk.MsgTypeURL(&crosschaintypes.MsgUpdateChainOracles{}):
+		return func(c *chain.Chain) []payload {
+			var out []payload
+			for _, name := range crosschaintypes.GetSupportChains() {
+				out = append(out, payload{name + "/first-oracle-list", &crosschaintypes.MsgUpdateChainOracles{ChainName: name, Oracles: []string{c.Users[1].Bech32(), c.Users[2].Bech32()}}})
+			}
+			return out
+		}
+	case sdk.MsgTypeURL(&crosschaintypes.MsgUpdateParams{}):
+		return func(c *chain.Chain) []payload {
+			var out []payload
+			for _, name := range crosschaintypes.GetSupportChains() {
+				p := fix.KeeperOf(c, name).GetParams(c.Ctx)
+				p.AverageBlockTime += 100
+				out = append(out, payload{name + "/untouched-chain", &crosschaintypes.MsgUpdateParams{ChainName: name, Params: p}})
+			}
+			return out
+		}
+	}
+	return nil
 }
 
 func c16UpdateStore(x *c16World, spec c16Spec, res *core.CaseResult) {
